@@ -102,6 +102,7 @@ theorem writerRun_disk (m : M) (w : WriteJob) :
           simp only [Bool.or_eq_true, ne_eq, decide_eq_true_eq, Bool.not_eq_true', not_or,
             Decidable.not_not, Bool.not_eq_false] at hst
           refine ⟨by simpa using hg, hst.1, hst.2, by simpa using hf, by simp, ?_⟩
-          simp [St.diskOKi]
+          have hpad : m.1.cfg.padOK w.piece = true := padOK_of_stored (by rw [‹List.filter _ _ = _ :: _›]; simp)
+          simp [St.diskOKi, hpad]
 
 end Rain.Loop
